@@ -9,6 +9,7 @@ extern size_t G_sk;
 #endif
 #define CONTRACT_MEMCMP_RECORDING
 #define CONTRACT_MEMCMP_SEQ
+#define CONTRACT_SECURE_MEMCMP_RECORDING
 #define CONTRACT_MEMXOR_RECORDING
 #include "sm4_ccm.h"
 #include "src/sm4_ccm.c"
@@ -67,7 +68,7 @@ void h_sm4_ccm_encrypt(void)
 	CANARY("returned");
 }
 
-//@job name=sm4_ccm_decrypt props=C05,C04 enforce=sm4_ccm_decrypt replace=sm4_cbc_mac_update,sm4_cbc_mac_finish,sm4_encrypt,sm4_ctr_n_encrypt,gmssl_memxor,memcmp,memcpy,gmssl_secure_clear unwindset=length_to_bytes.0:10 timeout=900 checks=-ptrarith
+//@job name=sm4_ccm_decrypt props=C05,C04 enforce=sm4_ccm_decrypt replace=sm4_cbc_mac_update,sm4_cbc_mac_finish,sm4_encrypt,sm4_ctr_n_encrypt,gmssl_memxor,memcmp,gmssl_secure_memcmp,memcpy,gmssl_secure_clear unwindset=length_to_bytes.0:10 timeout=900 checks=-ptrarith
 void h_sm4_ccm_decrypt(void)
 {
 	CCM_SETUP
